@@ -13,8 +13,9 @@
 // Two places where interface.go leaves a choice are made explicit:
 //   - a cursor walks "key/value pairs and nested buckets": the documentation does
 //     not say how the two kinds interleave.  The model walks all key/value pairs
-//     in byte order first and all nested buckets in byte order after them, and
-//     Seek is the lower bound in that composite order.
+//     in byte order first and all nested buckets in byte order after them.  Seek
+//     is specified for key/value pairs only; a Seek beyond the last pair of a
+//     bucket that has nested buckets leaves the cursor unpredictable.
 //   - "any modification to the bucket other than Cursor.Delete invalidates the
 //     cursor": the model then refuses to predict anything until the cursor is
 //     repositioned (Predictable() == false), and likewise for Key/Value right
@@ -135,6 +136,9 @@ type DB struct {
 
 // New returns an empty reference database.
 func New() *DB { return &DB{committed: NewState()} }
+
+// FromState returns a reference database whose committed state is s.
+func FromState(s *State) *DB { return &DB{committed: s} }
 
 // Committed returns the committed state (do not modify).
 func (d *DB) Committed() *State { return d.committed }
@@ -491,7 +495,9 @@ func (t *Tx) Cursor(path []string) *Cursor {
 // Predictable reports whether the documentation still determines what the
 // cursor returns (false after a foreign modification of its bucket until it is
 // repositioned with First/Last/Seek).
-func (c *Cursor) Predictable() bool { return c.predictable && !c.tx.Closed && c.tx.bucket(c.path) != nil }
+func (c *Cursor) Predictable() bool {
+	return c.predictable && !c.tx.Closed && c.tx.bucket(c.path) != nil
+}
 
 // Positioned reports whether the cursor is on a live pair or bucket.
 func (c *Cursor) Positioned() bool { return c.state == posAt }
@@ -572,6 +578,14 @@ func (c *Cursor) Seek(seek []byte) bool {
 	target := elem{0, string(seek)}
 	for i := range e {
 		if !less(e[i], target) {
+			if e[i].kind == 1 {
+				// No key/value pair >= seek exists.  interface.go defines Seek in
+				// terms of key/value pairs only ("the first key/value pair that is
+				// greater than or equal to the passed seek key"); whether the
+				// cursor then lands on a nested bucket or is exhausted is not
+				// specified, so nothing is predicted until it is repositioned.
+				c.predictable = false
+			}
 			return c.set(e, i)
 		}
 	}
